@@ -10,11 +10,11 @@ Panic sites of parser.rs and where they live in this model
   identifier and at least one more pair, …): unreachable because `gsd.pest` only produces such
   trees.  They are discharged by the *typing* of `Ast` (grammar layer, validated differentially:
   `Peg.toAst` answers `none` — reported as `panic` — on any other tree).
-* `pairs.next().unwrap()` for the *second* argument of `Ext_User_Prm_Data_Ref`,
-  `Ext_User_Prm_Data_Const` (top level and inside `Module`), `Unit_Diag_Bit`, `Unit_Diag_Bit_Help`,
-  `Unit_Diag_Not_Bit`, `Unit_Diag_Not_Bit_Help`: the grammar makes the `(n)` of a setting optional,
-  so `Unit_Diag_Bit=1` has only one pair after the key and the unwrap **panics** (open finding
-  `K_C19_unindexed`).  Explicit here: `Setting.second`.
+* the *second* argument of `Ext_User_Prm_Data_Ref`, `Ext_User_Prm_Data_Const` (top level and inside
+  `Module`), `Unit_Diag_Bit`, `Unit_Diag_Bit_Help`, `Unit_Diag_Not_Bit`, `Unit_Diag_Not_Bit_Help`: the
+  grammar makes the `(n)` of a setting optional, so `Unit_Diag_Bit=1` has only one pair after the key.
+  These eight sites used to `unwrap()` (finding F13-gsd-unindexed, fixed by 1c3df29); they now return
+  the error "missing value after the index in parentheses".  Explicit here: `Setting.second`.
 * `max_modules_span.or(modular_station_span).unwrap()` in the compact-station post-processing:
   explicit here (`finish`), proved unreachable (`interp_no_panic…`).
 * arithmetic: `offset + values.len()` (legacy prm; offset is always 0), `u16` range iteration,
@@ -39,6 +39,7 @@ inductive ErrKind where
   | dataref      -- ExtUserPrmData … was not found
   | slotdefault  -- default module of a slot is not available
   | prmlen       -- User_Prm_Data longer than User_Prm_Data_Len
+  | missing      -- "missing value after the index in parentheses" (setting without its `(n)`)
   deriving Repr, DecidableEq, Inhabited
 
 inductive Warn where
@@ -237,11 +238,12 @@ def Setting.first (s : Setting) : Value :=
   | some n => .num n
   | none => s.value
 
-/-- `pairs.next().unwrap()` a second time: the value if there was a `(n)`, otherwise **panic**. -/
+/-- `pairs.next().ok_or_else(..)?` a second time: the value if there was a `(n)`, otherwise the
+error "missing value after the index in parentheses". -/
 def Setting.second (s : Setting) : Res Value :=
   match s.index with
   | some _ => .ok s.value
-  | none => .panic
+  | none => .err .missing
 
 /-! ### Statements -/
 
@@ -600,31 +602,6 @@ def finish (st : St) : Res (Desc × List Warn) :=
   let g := defaultMaxModules st.maxModulesSeen (commitLegacy st)
   if g.modularStation then .ok (g, st.warnings)
   else compactStation g st.maxModulesSeen st.modularSeen st.warnings
-
-/-! ### Class predicate of the open finding `K_C19_unindexed` -/
-
-/-- Keys of the top-level `setting` arm that call `pairs.next().unwrap()` a second time. -/
-def indexedTop : List Str :=
-  ["ext_user_prm_data_ref".toList, "ext_user_prm_data_const".toList, "unit_diag_bit".toList,
-   "unit_diag_bit_help".toList, "unit_diag_not_bit".toList, "unit_diag_not_bit_help".toList]
-
-/-- The same inside `Module … EndModule`. -/
-def indexedModule : List Str := ["ext_user_prm_data_ref".toList, "ext_user_prm_data_const".toList]
-
-def Setting.unindexedTop (s : Setting) : Bool := s.index.isNone && indexedTop.contains (lower s.key)
-def Setting.unindexedModule (s : Setting) : Bool := s.index.isNone && indexedModule.contains (lower s.key)
-
-def ModItem.unindexed : ModItem → Bool
-  | .setting s => s.unindexedModule
-  | _ => false
-
-def Stmt.unindexed : Stmt → Bool
-  | .setting s => s.unindexedTop
-  | .module m => m.items.any ModItem.unindexed
-  | _ => false
-
-/-- The file contains a setting whose key needs an `(index)` but is written without one. -/
-def hasUnindexed (ast : Ast) : Bool := ast.any Stmt.unindexed
 
 /-- The interpretation of a whole file. -/
 def interp (ast : Ast) : Res (Desc × List Warn) := do
